@@ -1,6 +1,7 @@
 //! conform: conformance harness between the TLA+ specifications in /verif/spec and the contracts
 //! in /repo.   conform replay <module> <walks.ndjson> <out.ndjson> [threads]
 //!             conform drive  <module> <seed> <steps> <out.ndjson> [extra-json]
+mod abi;
 mod binder;
 mod common;
 mod drive_gateway;
